@@ -86,8 +86,15 @@ class AppHooks(ClassHooks):
             eng.trace.append(("main", args[0] if args else None))
             return self.external(eng, "main", self.main_outcomes, args[0] if args else None)
         if isinstance(obj, Rec) and meth == "input":
-            eng.trace.append(("input", args[0] if args else None))
-            return self.external(eng, "input", self.input_outcomes, args[0] if args else None)
+            arg = args[0] if args else None
+            eng.trace.append(("input", arg))
+            # the upstream app, through the contract proved here for _call: a NotCompleted value passes through an
+            # app that skips not-completed values *by identity*; otherwise it returns data or a NotCompleted, never
+            # None, never raises Exception
+            up_skip = eng.choose(2, "upstream_skip") == 0
+            eng.trace.append(("upstream_skip", up_skip))
+            outs = ["same"] if (is_nc(arg) and up_skip) else self.input_outcomes
+            return self.external(eng, "input", outs, arg)
         if isinstance(obj, Rec) and meth == "__call__":
             # self(value): the app applied to a value -- by the contract of _call proved here
             eng.trace.append(("self()", args[0]))
@@ -206,7 +213,8 @@ def run_call(chk):
             main_out = [t[1] for t in tr if t[0] == "main->"]
             info = {"text": f"{cfg}; trace={[(a, str(b)[:30]) for a, b in tr]}; outcome={p.outcome}:{str(p.value)[:40]}",
                     "skip": skip, "has_input": has_input, "val": vname, "main": (main_out or [None])[0],
-                    "input_out": ([t[1] for t in tr if t[0] == "input->"] or [None])[0]}
+                    "input_out": ([t[1] for t in tr if t[0] == "input->"] or [None])[0],
+                    "up_skip": ([t[1] for t in tr if t[0] == "upstream_skip"] or [True])[0]}
             # (1) no Exception escapes (BaseException such as KeyboardInterrupt may)
             escaped = p.outcome == "raise" and p.value != "KeyboardInterrupt"
             note("noexcept: no Exception escapes when main()/input() raise or misbehave", not escaped, info)
@@ -222,8 +230,11 @@ def run_call(chk):
             # (4) a NotCompleted input is returned by identity before main() when _skip_not_completed
             if vname == "NotCompleted" and skip:
                 note("post: NotCompleted input is passed through by identity, main() not reached",
-                     r is p.state.get("val", r) or (is_nc(r) and r.attrs.get("made_by") == "caller") and not main_calls, info)
-                note("frame: main() is not called on a NotCompleted input", not main_calls, info)
+                     r is p.state["val"] and not main_calls, info)
+            # a NotCompleted value reaching this app's own steps (directly or from upstream) never reaches main()
+            reached = [t[1] for t in tr if t[0] == "main"]
+            if skip:
+                note("frame: main() is never called on a NotCompleted value", not any(is_nc(x) for x in reached), info)
             # (5) main returning None -> NotCompleted(BUG)
             if main_out == ["None"]:
                 note("post: main() returning None gives NotCompleted(BUG)", is_nc(r) and r.attrs["kind"] == "BUG", info)
